@@ -78,6 +78,12 @@ pub static POLICY: Mutex<Option<Policy>> = Mutex::new(None);
 pub static N_MMAP: AtomicUsize = AtomicUsize::new(0);
 pub static OCC_USED: AtomicUsize = AtomicUsize::new(0);
 pub static N_MUNMAP_POL: AtomicUsize = AtomicUsize::new(0);
+/// successful library mmaps / munmaps of owned mappings / munmaps reaching foreign memory (cycle accounting)
+pub static N_MMAP_OK: AtomicUsize = AtomicUsize::new(0);
+pub static N_MUNMAP_OK: AtomicUsize = AtomicUsize::new(0);
+pub static N_FOREIGN: AtomicUsize = AtomicUsize::new(0);
+/// when set, OS-level events are counted but not logged one by one (long cycle runs)
+pub static QUIET_ALL: AtomicBool = AtomicBool::new(false);
 pub static N_MUNMAP: AtomicUsize = AtomicUsize::new(0);
 pub static N_MPROTECT: AtomicUsize = AtomicUsize::new(0);
 pub static N_FLUSH: AtomicUsize = AtomicUsize::new(0);
@@ -204,6 +210,14 @@ pub unsafe extern "C" fn mmap(addr: *mut c_void, len: size_t, prot: c_int, flags
     if !failed {
         OWNED.lock().unwrap().push((r, len as u64));
         watch::add_tramp(r, len);
+        N_MMAP_OK.fetch_add(1, SeqCst);
+    }
+    if QUIET_ALL.load(SeqCst) {
+        if failed {
+            set_errno(-(r as i64) as i32);
+            return libc::MAP_FAILED;
+        }
+        return r as *mut c_void;
     }
     if QUIET_FAILS.load(SeqCst) && (failed || how == "occ-far" || how == "occ-else") {
         QUIET_COUNT.fetch_add(1, SeqCst);
@@ -266,6 +280,14 @@ pub unsafe extern "C" fn munmap(addr: *mut c_void, len: size_t) -> c_int {
     // a munmap that reaches outside owned mappings is logged and NOT performed (it would
     // take the harness down with it); the trace records that it was attempted.
     let r = if overlaps_foreign { 0 } else { raw_munmap(a, len) };
+    if overlaps_foreign {
+        N_FOREIGN.fetch_add(1, SeqCst);
+    } else if owned_exact && r == 0 {
+        N_MUNMAP_OK.fetch_add(1, SeqCst);
+    }
+    if QUIET_ALL.load(SeqCst) {
+        return r;
+    }
     emit(json!({"ev":"Munmap","addr":a8(a),"len":len,"ret":r,"owned":owned_exact,"foreign":overlaps_foreign,"name":format!("m{:x}", a),"lock":lock_state()}));
     if r < 0 {
         set_errno(-r);
@@ -277,6 +299,14 @@ pub unsafe extern "C" fn munmap(addr: *mut c_void, len: size_t) -> c_int {
 #[no_mangle]
 pub unsafe extern "C" fn mprotect(addr: *mut c_void, len: size_t, prot: c_int) -> c_int {
     if !active() {
+        let r = raw_mprotect(addr as u64, len, prot);
+        if r < 0 {
+            set_errno(-r);
+            return -1;
+        }
+        return r;
+    }
+    if QUIET_ALL.load(SeqCst) {
         let r = raw_mprotect(addr as u64, len, prot);
         if r < 0 {
             set_errno(-r);
@@ -305,6 +335,9 @@ pub unsafe extern "C" fn mprotect(addr: *mut c_void, len: size_t, prot: c_int) -
 #[no_mangle]
 pub unsafe extern "C" fn __clear_cache(start: *mut c_char, end: *mut c_char) {
     if !active() {
+        return;
+    }
+    if QUIET_ALL.load(SeqCst) {
         return;
     }
     let _b = Busy::new();
